@@ -19,7 +19,7 @@
   (`*_matrix`, `tensor_kron`) — for then, tensor, dagger, id, swap; well-formedness of all
   results; refusal of `>>` exactly on a type mismatch; the laws as EQUALITIES of tensors
   (`interchange_law`, `swap_natural`, `dagger_then`, `dagger_tensor`, `dagger_dagger`, unit
-  laws); both snake equations for single-wire cups/caps of every dimension `n`
+  laws, associativity of `>>` and `@`); both snake equations for single-wire cups/caps of every dimension `n`
   (`snake_l_single`, `snake_r_single`), where `Tensor.cups [n] [n]` is shown to be the cup of
   tensor.py:223-224.
 
@@ -120,6 +120,22 @@ theorem id_then (f : Tensor R) (hf : f.WF) : (Tensor.id f.dom).then f = .ok f :=
 
 theorem then_id (f : Tensor R) (hf : f.WF) : f.then (Tensor.id f.cod) = .ok f := by
   rw [then_ok rfl, Tensor.then_id f hf]
+
+/-- Composition is associative. -/
+theorem then_assoc (f g h x y : Tensor R) (hf : f.WF) (hg : g.WF) (hh : h.WF)
+    (h1 : f.then g = .ok x) (h2 : g.then h = .ok y) : x.then h = f.then y := by
+  obtain ⟨c1, rfl⟩ := then_eq_ok h1
+  obtain ⟨c2, rfl⟩ := then_eq_ok h2
+  rw [then_ok (by simpa using c2), then_ok (by simpa using c1),
+    Tensor.then_assoc f g h hf hg hh c1 c2]
+
+/-- Tensor is strictly associative and `id(a) ⊗ id(b) = id(a ⊗ b)`, `id(1)` is its unit. -/
+theorem tensor_monoid (f g h : Tensor R) (hf : f.WF) (hg : g.WF) (hh : h.WF) (a b : List Nat) :
+    (f.tensor g).tensor h = f.tensor (g.tensor h) ∧
+    (Tensor.id (R := R) a).tensor (Tensor.id b) = Tensor.id (a ++ b) ∧
+    (Tensor.id []).tensor f = f ∧ f.tensor (Tensor.id []) = f :=
+  ⟨Tensor.tensor_assoc f g h hf hg hh, Tensor.id_tensor_id a b, Tensor.id_nil_tensor f hf,
+    Tensor.tensor_id_nil f hf⟩
 
 /-- **Interchange law**: `(f ≫ f') ⊗ (g ≫ g') = (f ⊗ g) ≫ (f' ⊗ g')`. -/
 theorem interchange_law (f f' g g' x y : Tensor R) (hf : f.WF) (hf' : f'.WF) (hg : g.WF)
